@@ -237,7 +237,10 @@ class HistoryGen:
     def rand_shape(self):
         r = self.rng
         nd = r.choice([1, 1, 2, 2, 2, 3, 3, 4])
-        return [r.choice([1, 2, 2, 3, 3, 4, 5]) for _ in range(nd)]
+        shp = [r.choice([1, 2, 2, 3, 3, 4, 5]) for _ in range(nd)]
+        if r.random() < 0.35:
+            shp[-1] = r.choice([6, 7, 8])      # room for stepped runs along the innermost axis
+        return shp
 
     def rand_slice_args(self, a):
         r = self.rng
@@ -249,6 +252,13 @@ class HistoryGen:
             mx = d - 1 - (n - 1) * st
             l = r.randint(0, mx)
             loc.append(l); dims.append(n); step.append(st)
+        if len(a.shape) >= 2 and r.random() < 0.25:
+            # a column / single stepped row: exactly one axis keeps its extent
+            keep = r.randrange(len(a.shape))
+            for ax in range(len(a.shape)):
+                if ax != keep:
+                    dims[ax] = 1
+                    loc[ax] = r.randint(0, a.shape[ax] - 1)
         use_nil = all(s == 1 for s in step) and r.random() < 0.5
         return loc, dims, (None if use_nil else step)
 
@@ -278,10 +288,14 @@ class HistoryGen:
             if self.opmix == 'views':
                 kinds += ['SLICE'] * 6 + ['SET', 'GET', 'APPLY'] * 3
             if self.opmix == 'bulk':
-                kinds += ['APPLYSLICE', 'COPYFROM', 'RESHAPE', 'UNROLL', 'UNROLLW', 'CONTIG', 'MAX', 'MIN'] * 2
+                kinds += ['APPLYSLICE', 'COPYFROM', 'RESHAPE', 'UNROLL', 'UNROLLW', 'CONTIG', 'MAX', 'MIN', 'APPLY', 'SLICE'] * 2
+            if self.opmix == 'all':
+                kinds += ['RESHAPE', 'SLICE', 'SLICE', 'APPLY', 'UNROLLW']
             if self.allowed is not None:
                 kinds = [x for x in kinds if x in self.allowed]
             k = r.choice(kinds)
+            if self.kinds and self.kinds[-1] in ('RESHAPE', 'MUSTRESHAPE', 'RESHAPEFAST', 'SLICE') and r.random() < 0.45 and 'SET' in kinds:
+                k = 'SET'      # probe: write right after creating a view / reshape, through a random array
             i = self.pick()
             a = sh.arrs[i]
             val = r.randint(100, 999)
@@ -304,11 +318,21 @@ class HistoryGen:
                 else:
                     self.emit('%s %d L %s V %d' % (k, i, ints(loc), val), sh.op_set(i, loc, val))
             elif k == 'APPLY':
-                dim = r.randrange(len(a.shape))
-                stp = r.choice([1, 1, 2])
+                # prefer views (not roots) and long runs: the fast path / index loop split depends on the
+                # receiver's own strides and on which axis is written
+                if r.random() < 0.6:
+                    views = [j for j, b in enumerate(sh.arrs) if j >= len(sh.roots) and max(b.shape) >= 2]
+                    if views:
+                        i = r.choice(views); a = sh.arrs[i]
+                dim = (len(a.shape) - 1) if r.random() < 0.5 else r.randrange(len(a.shape))
+                stp = r.choice([1, 1, 1, 2])
                 loc = [r.randint(0, d - 1) for d in a.shape]
+                if r.random() < 0.6:
+                    loc[dim] = r.choice([0, 0, 1]) if a.shape[dim] > 1 else 0
                 nmax = (a.shape[dim] - 1 - loc[dim]) // stp + 1
                 n = r.randint(0 if r.random() < 0.1 else 1, nmax)
+                if r.random() < 0.5:
+                    n = nmax
                 vals = [val + q for q in range(n)]
                 self.emit('APPLY %d L %s X %d %d V %s' % (i, ints(loc), dim, stp, ints(vals)), sh.op_apply(i, loc, dim, stp, vals))
             elif k in ('APPLYSLICE', 'COPYFROM'):
@@ -343,7 +367,7 @@ class HistoryGen:
                     continue
                 n = prod(a.shape)
                 facs = [[n]] + [[p, n // p] for p in range(1, n + 1) if n % p == 0] + [[1, n, 1]]
-                shape = r.choice(facs)
+                shape = [n] if r.random() < 0.4 else r.choice(facs)
                 if r.random() < 0.12 and k != 'MUSTRESHAPE':
                     shape = [n + 1]
                 res = sh.op_reshape(i, shape, fast=(k == 'RESHAPEFAST'))
@@ -421,4 +445,100 @@ def malformed_history(rng, allowed=None):
         g.ops.append('SLICE %d L %s D %s S 1' % (i, ints([0] * len(a.shape)), ints(a.shape)))
     else:
         g.ops.append('APPLY %d L %s X %d 1 V 1' % (i, ints([0] * len(a.shape)), len(a.shape)))
+    return g
+
+
+def _ints_until(toks, p):
+    r = []
+    while p < len(toks) and (toks[p][0].isdigit() or toks[p][0] == '-'):
+        r.append(int(toks[p])); p += 1
+    return r, p
+
+
+def shadow_replay(line):
+    """Run the abstract specification on a given history line (corpus / replay files).
+    Returns (expected observables, alternatives, notes) or None when the history leaves the
+    specified domain (out-of-range arguments: then only model-vs-code is compared)."""
+    toks = line.split()
+    assert toks[0] == 'ARRH'
+    ops, cur = [], []
+    for t in toks[2:]:
+        if t == ';':
+            ops.append(cur); cur = []
+        else:
+            cur.append(t)
+    if cur:
+        ops.append(cur)
+    g = HistoryGen(random.Random(0), types=toks[1])
+    sh = g.sh
+    try:
+        for o in ops:
+            k = o[0]
+            tok = ' '.join(o)
+            if k == 'NEW':
+                dims, _ = _ints_until(o, 2)
+                g.emit(tok, sh.op_new(o[1], dims))
+            elif k == 'SLICE':
+                i = int(o[1]); loc, p = _ints_until(o, 3); dims, p = _ints_until(o, p + 1)
+                step = None if o[p] == 'N' else _ints_until(o, p + 1)[0]
+                g.emit(tok, sh.op_slice(i, loc, dims, step))
+            elif k in ('GET', 'GETN'):
+                g.emit(tok, sh.op_get(int(o[1]), _ints_until(o, 3)[0]))
+            elif k in ('SET', 'SETN'):
+                loc, p = _ints_until(o, 3)
+                g.emit(tok, sh.op_set(int(o[1]), loc, int(o[p + 1])))
+            elif k == 'APPLY':
+                loc, p = _ints_until(o, 3)
+                dim, stp = int(o[p + 1]), int(o[p + 2])
+                vals, _ = _ints_until(o, p + 4)
+                if dim >= len(loc):
+                    return None
+                g.emit(tok, sh.op_apply(int(o[1]), loc, dim, stp, vals))
+            elif k == 'APPLYSLICE':
+                loc, p = _ints_until(o, 3)
+                if o[p] == 'N':
+                    step, p = None, p + 1
+                else:
+                    step, p = _ints_until(o, p + 1)
+                g.emit(tok, sh.op_applyslice(int(o[1]), loc, step, int(o[p + 1])))
+            elif k == 'COPYFROM':
+                g.emit(tok, sh.op_copyfrom(int(o[1]), int(o[2])))
+            elif k == 'UNROLL':
+                g.emit(tok, sh.op_unroll(int(o[1])))
+            elif k == 'UNROLLW':
+                g.emit(tok, sh.op_unrollw(int(o[1]), int(o[2]), int(o[3])))
+            elif k in ('RESHAPE', 'RESHAPEFAST', 'MUSTRESHAPE'):
+                shape, _ = _ints_until(o, 3)
+                r = sh.op_reshape(int(o[1]), shape, fast=(k == 'RESHAPEFAST'))
+                if k == 'MUSTRESHAPE' and r == 'err':
+                    return None
+                g.emit(tok, r)
+            elif k == 'CONTIG':
+                g.emit(tok, sh.op_contig(int(o[1])))
+            elif k == 'MAX':
+                g.emit(tok, sh.op_max(int(o[1])))
+            elif k == 'MIN':
+                g.emit(tok, sh.op_min(int(o[1])))
+            elif k == 'GET1':
+                g.emit(tok, sh.op_get1(int(o[1]), int(o[2])))
+            elif k == 'SET1':
+                g.emit(tok, sh.op_set1(int(o[1]), int(o[2]), int(o[3])))
+            elif k == 'APPLY1':
+                vals, _ = _ints_until(o, 5)
+                g.emit(tok, sh.op_apply1(int(o[1]), int(o[2]), int(o[3]), vals))
+            elif k == 'SCALE':
+                kk = int(o[3])
+                g.emit(tok, sh.op_elementwise(int(o[1]), int(o[2]), lambda d, s_: s_ * kk))
+            elif k == 'ADDTO':
+                g.emit(tok, sh.op_elementwise(int(o[1]), int(o[2]), lambda d, s_: d + s_))
+            elif k == 'APPLYFUNC':
+                g.emit(tok, sh.op_elementwise(int(o[1]), int(o[2]), lambda d, s_: s_ * 2 + 1))
+            elif k == 'SHAPE':
+                g.emit(tok, sh.op_shape(int(o[1])))
+            elif k == 'LEN':
+                g.emit(tok, sh.op_len(int(o[1]), int(o[2])))
+            else:
+                return None
+    except (KeyError, IndexError, ValueError):
+        return None
     return g
